@@ -76,6 +76,11 @@ def r1(ctx: Ctx) -> None:
             b = ("bound", t[3][0][0][0])
             rng = t[3][0][1]
             ok = poly_of(t[2]) == poly_of(("bin", "+", ("attr", ("sym", "self"), "trigger_time"), b)) and rng == ("call", ("name", "range"), (("attr", ("sym", "self"), "shock_time_length"),), (), None)
+        if not ok and any(x[0] == "comp" and any(gen[2] for gen in x[3]) for x in subterms(t)):
+            # the window is built with a filter: whether the filter can remove a step of the window is arithmetic on times
+            # (seed C14t cuts at the session end, its corrected version filters by a bound that is always true)
+            ctx.unrec(g, h.event.node, f"{FPS}: window = trigger, trigger+1, ..., trigger+length-1", "the list of times is built with a filter condition: what it removes is not decided", short(t))
+            continue
         ctx.check(ok, g, h.event.node, f"{FPS}: window = trigger, trigger+1, ..., trigger+length-1", "[self.trigger_time + i for i in range(self.shock_time_length)]", short(t))
     for p in disabled:
         lit = alloc_literal(p, p.exit[1])
